@@ -37,8 +37,13 @@ var Pool = []Pkg{
 	{"d.io/util", "util"},
 	{"e.net/lib/util", "util"},
 	{"f.dev/v2", "f"},
-	{"root/vendor/g.com/vend", "vend"},
+	{"github.com/Sirupsen/logrus", "logrus"}, // equal up to case: ties under any case-folding order
+	{"github.com/sirupsen/logrus", "logrus"},
+	{"root/vendor/g.com/vend", "vend"}, // must stay last (edit scripts never pick it)
 }
+
+// ConflictIdx indexes the Pool entries that share a package name with another entry.
+var ConflictIdx = []int{7, 8, 9, 10, 11, 14, 15, 17, 18}
 
 // Truth is the accurate path -> name map of the universe (vendor-stripped path included).
 func Truth() map[string]string {
@@ -245,8 +250,7 @@ func Source(t *tape.Tape, opt Options) Spec {
 		var p Pkg
 		if opt.Conflicts && t.Bool(2, 3) {
 			// packages called x / util / template
-			c := []int{7, 8, 9, 10, 11, 14, 15}
-			p = Pool[c[t.Draw(len(c))]]
+			p = Pool[ConflictIdx[t.Draw(len(ConflictIdx))]]
 		} else {
 			p = Pool[t.Draw(len(Pool))]
 		}
